@@ -438,7 +438,7 @@ pub enum WildCell {
     PlusOne,
 }
 
-pub const HAND_CONFIGS: [(&str, [usize; 5], WildCell); 7] = [
+pub const HAND_CONFIGS: [(&str, [usize; 5], WildCell); 8] = [
     ("uniform, N=-inf", [1, 1, 1, 1, 0], WildCell::NegInf),
     ("nonuniform(.1,.2,.3,.4,0), N=-inf", [1, 2, 3, 4, 0], WildCell::NegInf),
     ("wildcard(.2,.3,.1,.3,.1), N=row minimum", [2, 3, 1, 3, 1], WildCell::RowMin),
@@ -448,6 +448,9 @@ pub const HAND_CONFIGS: [(&str, [usize; 5], WildCell); 7] = [
     // heavily skewed background: word probabilities down to 2^-10M, i.e. tail probabilities (and p-value queries)
     // far below 1e-6 and, for M >= 6, below machine epsilon
     ("skewed(2^-10,2^-10,2^-10,1-3*2^-10,0), N=-inf", [1, 1, 1021, 1, 0], WildCell::NegInf),
+    // even more skewed: a prefix of four rare symbols already weighs 2^-56 < machine epsilon, so partial sums of the
+    // convolutions / Q-value maps fall below 2.2e-16 long before the last row
+    ("very skewed(2^-14 x3, rest), N=-inf", [1, 1, 16381, 1, 0], WildCell::NegInf),
 ];
 
 pub fn hand(hi: usize, ci: usize) -> Mat {
@@ -525,7 +528,7 @@ pub fn menu_text(widths: &[usize], windows: &dyn Fn(usize) -> usize, pseudos: &[
 pub fn hand_text() -> String {
     let names: Vec<&str> = hand_rows().iter().map(|h| h.0).collect();
     format!(
-        "{} hand matrices ({}: integers, halves, tenths, narrow range, narrow range with offset, constant (small == large branch), constant rows, offset drift, frozen log-odds cells, wide range) x {} wildcard/background configurations (uniform N=-inf; (.1,.2,.3,.4,0) N=-inf; (.2,.3,.1,.3,.1) N=row minimum; (.2,.3,.1,.3,.1) N=-inf; (.1,.2,.3,.4,0) N=0.0; (.1,.2,.3,.4,0) N=+1.0; skewed (2^-10,2^-10,1-3*2^-10,2^-10,0) N=-inf: tails below machine epsilon)",
+        "{} hand matrices ({}: integers, halves, tenths, narrow range, narrow range with offset, constant (small == large branch), constant rows, offset drift, frozen log-odds cells, wide range) x {} wildcard/background configurations (uniform N=-inf; (.1,.2,.3,.4,0) N=-inf; (.2,.3,.1,.3,.1) N=row minimum; (.2,.3,.1,.3,.1) N=-inf; (.1,.2,.3,.4,0) N=0.0; (.1,.2,.3,.4,0) N=+1.0; skewed (2^-10,2^-10,1-3*2^-10,2^-10,0) N=-inf: tails below machine epsilon; very skewed (2^-14 x3) N=-inf)",
         names.len(),
         names.join(" "),
         HAND_CONFIGS.len()
